@@ -7,6 +7,9 @@ import Rox.Props.C06Base
 import Rox.Lemmas.NsScope
 import Rox.Lemmas.ElemNs
 import Rox.Lemmas.AttrNs
+import Rox.Lemmas.MirrorNsAll
+import Rox.Lemmas.GrammarTables
+import Rox.Props.C01
 
 namespace Rox.Props.C06
 open Rox Rox.Lemmas
@@ -73,5 +76,26 @@ theorem attribute_namespaces (txt : Bytes) (c c' : Ctx) (e : EndKind) (r : Range
         c.curAttrs.map (fun a => (attrNsSpec c a.pfx.bytes, a.loc, a.value)) ∧
       (∀ a ∈ c.curAttrs, a.pfx.bytes ≠ [] → (attrNsSpec c a.pfx.bytes).isSome = true) :=
   processElement_attributes txt c c' e r he hb hn h
+
+/-- **Names and in-scope namespaces resolve per "Namespaces in XML 1.0" — for EVERY accepted input**
+(every valid UTF-8 input, the default `allow_dtd = false`, every node limit): if `parse` returns a
+tree, then for the abstract document `x` the input is the concrete syntax of — the same `x` whose
+tree the arena is — the element nodes, read in id order, carry exactly `nsDoc x`
+(`Rox.Spec.MirrorNs`): every element's in-scope list is its own declarations in source order followed
+by the inherited bindings that are not overridden (at most one entry per prefix, the implicit `xml`
+binding never listed); a prefixed element or attribute name carries the namespace name of the nearest
+enclosing declaration of its prefix, an unprefixed element that of the nearest default declaration
+(the empty name when declared empty, none when undeclared), an unprefixed attribute none, `xml:`
+always the XML namespace; namespace names are the normalised attribute values. -/
+theorem accepted_namespaces_resolve (txt : Bytes) (hv : ValidUtf8 txt) (opt : Opt)
+    (hdtd : opt.allowDtd = false) (d : Doc) (h : parse Generated.tables txt opt = .ok d) :
+    ∃ x : Rox.Spec.Grammar.GDoc, Rox.Spec.Grammar.GDocWf Generated.tables x ∧
+      Rox.Spec.Mirror.DocNormal Generated.tables x ∧ Rox.Spec.Grammar.RDoc Generated.tables x txt ∧
+      d.nodes.toList.map (Rox.Spec.Mirror.viewM d) =
+        (none, Rox.Spec.Canon4.YKind.root) ::
+          Rox.Spec.Canon4.expectAllY 0 1 (Rox.Spec.Mirror.docTree x) ∧
+      d.nodes.toList.filterMap (Rox.Spec.MirrorNs.viewNs d) = Rox.Spec.MirrorNs.nsDoc x :=
+  Rox.Lemmas.accepted_namespaces_resolve Generated.tables C01.generated_tables_ok
+    Rox.Lemmas.generated_tables_grammar txt hv opt hdtd d h
 
 end Rox.Props.C06
